@@ -29,6 +29,7 @@ func TestMain(m *testing.M) {
 		"after each run the probe sequence (all pairs, twice, in generated order) is validated. Oracle: every outcome after the fault — the rest of the workload and all probes — equals the outcome computed alone; the process survives; under the validatedebug build no pool panic. "+
 		"Non-trivial = N >= 3, a fault that unwinds through at least two validator levels, and probes that borrow at least three validators of a type live at the panic; distinct by content hash",
 		"fault points: exhaustive over checker invocations within each generated workload, sampled over workloads; panics raised elsewhere are outside the statement",
+		"specification part (about one case in 64): two or three small documents with formatted defaults / examples; the first is validated with the fuse armed at its first, middle and last checker invocation; afterwards every document is validated by that same SpecValidator and by a fresh one, a different document first each time, and must report what it reports alone",
 		"a drawn scribble mode (off / zero / poison) additionally overwrites every redeemed object, which makes a double Put or a use-after-redeem visible immediately")
 	ev.Main(m, "C11")
 }
